@@ -153,7 +153,9 @@ MUTS = {
 
 ''', "")]),
     "R7-kubeinject-ignores-label": (INJ, [('''		if !injectRequired(IgnoredNamespaces.UnsortedList(), &Config{Policy: InjectionPolicyEnabled}, &pod.Spec, pod.ObjectMeta) {''', '''		if false && !injectRequired(IgnoredNamespaces.UnsortedList(), &Config{Policy: InjectionPolicyEnabled}, &pod.Spec, pod.ObjectMeta) {''')]),
-    "S1-kubeinject-ignored-namespaces-nil": (INJ, [('''		if !injectRequired(IgnoredNamespaces.UnsortedList(), &Config{Policy: InjectionPolicyEnabled}, &pod.Spec, decisionMeta) {''', '''		if !injectRequired(nil, &Config{Policy: InjectionPolicyEnabled}, &pod.Spec, decisionMeta) {''')]),
+    "S1-kubeinject-ignored-namespaces-nil": (INJ, [('''		if !injectRequired(IgnoredNamespaces.UnsortedList(), &Config{Policy: InjectionPolicyEnabled}, &pod.Spec, decisionMeta) {
+			return skip()''', '''		if !injectRequired(nil, &Config{Policy: InjectionPolicyEnabled}, &pod.Spec, decisionMeta) {
+			return skip()''')]),
     "S2-excludeInboundPort-already-excluded-return-removed": ("pkg/kube/inject/template.go", [('''		if port == portStr {
 			// The port is already excluded.
 			return excludedInboundPorts
@@ -168,18 +170,22 @@ MUTS = {
     "S7-revert-F10h-otel": ("pkg/kube/inject/template.go", [('''		if c.Name != ProxyContainerName {
 			apps = append(apps, c)
 		}''', '''		apps = append(apps, c)''')]),
-    "S8-revert-F10i-kubeinject-namespace": (INJ, [('''		if decisionMeta.Namespace == "" {
-			decisionMeta.Namespace = namespace
-		}''', '''		_ = namespace''')]),
+    "S8-revert-F10i-kubeinject-namespace": (INJ, [('''	if decisionMeta.Namespace == "" {
+		decisionMeta.Namespace = namespace
+	}''', '''	_ = namespace''')]),
     "T1-reflective-branch-namespace-dropped": (INJ, [('''		deploymentMetadata = types.NamespacedName{Name: om.GetName(), Namespace: om.GetNamespace()}''', '''		deploymentMetadata = types.NamespacedName{Name: om.GetName()}''')]),
     "T3-never-selector-json-tag-renamed": (INJ, [('''	NeverInjectSelector []metav1.LabelSelector `json:"neverInjectSelector"`''', '''	NeverInjectSelector []metav1.LabelSelector `json:"neverInjectSelectors"`''')]),
     "T4-status-annotation-bypasses-decision": (WH, [('''	if !injectRequired(IgnoredNamespaces.UnsortedList(), wh.Config, &pod.Spec, pod.ObjectMeta) {''', '''	if _, again := pod.Annotations[annotation.SidecarStatus.Name]; !again && !injectRequired(IgnoredNamespaces.UnsortedList(), wh.Config, &pod.Spec, pod.ObjectMeta) {''')]),
     "T7-reinsert-init-overrides-into-containers": (WH, [('''		pod.Spec.InitContainers = append(pod.Spec.InitContainers, c)''', '''		pod.Spec.Containers = append(pod.Spec.Containers, c)''')]),
     "TU-funcmap-key-renamed-config-unloadable": ("pkg/kube/inject/template.go", [('''		"otelResourceAttributes": otelResourceAttributes,''', '''		"otelResourceAttributesX": otelResourceAttributes,''')]),
-    "T8-revert-F10j-cronjob-decision": (INJ, [('''		if podMetadata != nil {''', '''		if false && podMetadata != nil {''')]),
+    "T8-revert-F10j-cronjob-decision": (INJ, [('''	if podMetadata != nil {
+		decisionMeta = *podMetadata''', '''	if false && podMetadata != nil {
+		decisionMeta = *podMetadata''')]),
     "T9-status-annotation-omits-volumes": (WH, [('''		stat.Volumes = append(stat.Volumes, c.Name)''', '''		_ = c''')]),
     "N2-webhook-skips-ambient-dataplane-label": (WH, [('''	if !injectRequired(IgnoredNamespaces.UnsortedList(), wh.Config, &pod.Spec, pod.ObjectMeta) {''', '''	if pod.Labels["istio.io/dataplane-mode"] == "ambient" || !injectRequired(IgnoredNamespaces.UnsortedList(), wh.Config, &pod.Spec, pod.ObjectMeta) {''')]),
-    "N4-kubeinject-status-annotation-bypasses-decision": (INJ, [('''		if !injectRequired(IgnoredNamespaces.UnsortedList(), &Config{Policy: InjectionPolicyEnabled}, &pod.Spec, decisionMeta) {''', '''		if _, again := pod.Annotations[annotation.SidecarStatus.Name]; !again && !injectRequired(IgnoredNamespaces.UnsortedList(), &Config{Policy: InjectionPolicyEnabled}, &pod.Spec, decisionMeta) {''')]),
+    "N4-kubeinject-status-annotation-bypasses-decision": (INJ, [('''		if !injectRequired(IgnoredNamespaces.UnsortedList(), &Config{Policy: InjectionPolicyEnabled}, &pod.Spec, decisionMeta) {
+			return skip()''', '''		if _, again := pod.Annotations[annotation.SidecarStatus.Name]; !again && !injectRequired(IgnoredNamespaces.UnsortedList(), &Config{Policy: InjectionPolicyEnabled}, &pod.Spec, decisionMeta) {
+			return skip()''')]),
     "N5-webhook-annotation-false-wins-over-label": (INJ, [('''		objectSelector = lbl
 	}''', '''		objectSelector = lbl
 		if annos[annotation.SidecarInject.Name] == "false" {
@@ -201,6 +207,38 @@ MUTS = {
 		val := newKVs[key]''', '''	sort.Sort(sort.Reverse(sort.StringSlice(keys)))
 	for _, key := range keys {
 		val := newKVs[key]''')]),
+    "V1-list-continue-to-break-on-unregistered-item": (INJ, [('''			if runtime.IsNotRegisteredError(err) {
+				continue
+			}''', '''			if runtime.IsNotRegisteredError(err) {
+				break
+			}''')]),
+    "V2-revert-cronjob-injector-decision": (INJ, [('''		if podMetadata != nil && !injectRequired(''', '''		if false && podMetadata != nil && !injectRequired(''')]),
+    "V3-revert-nativeSidecar-annotation-reading": (INJ, [('''			native = v != "false"''', '''			native = (v == "true") || (v != "false" && params.nativeSidecar)''')]),
+    "V4-webhook-request-namespace-overrides-pods-own": (WH, [('''	if pod.ObjectMeta.Namespace == "" {
+		pod.ObjectMeta.Namespace = req.Namespace
+	}''', '''	if req.Namespace != "" {
+		pod.ObjectMeta.Namespace = req.Namespace
+	}''')]),
+    "V5-dedupe-env-keeps-position-of-last": (WH, [('''	out := make([]corev1.EnvVar, 0, len(last))
+	seen := make(map[string]bool, len(last))
+	for _, e := range sidecar.Env {
+		if !seen[e.Name] {
+			seen[e.Name] = true
+			out = append(out, sidecar.Env[last[e.Name]])
+		}
+	}''', '''	out := make([]corev1.EnvVar, 0, len(last))
+	for i, e := range sidecar.Env {
+		if last[e.Name] == i {
+			out = append(out, e)
+		}
+	}''')]),
+    "V6-multi-document-file-stops-after-unknown-kind": (INJ, [('''		} else {
+			updated = raw // unchanged
+		}''', '''		} else {
+			updated = raw // unchanged
+			_, _ = out.Write(updated)
+			break
+		}''')]),
     "P7-status-annotation-not-stripped": (INJ, [('''	delete(pod.Annotations, annotation.SidecarStatus.Name)
 
 	return pod''', '''	return pod''')]),
